@@ -1,12 +1,12 @@
-import NixModel.Pure.DimLink
+import NixModel.Pure.DimLinkTicks
 
 /-!
-Lemmas about the model of linked-dimension ticks (`Pure/DimLink.lean`): a successful read has as many entries as the
+Lemmas about the model of linked-dimension ticks (`Pure/DimLinkTicks.lean`): a successful read has as many entries as the
 provider's extent along the marked axis; an accepted index with coordinates inside the provider always reads; such an
 index is one `link_data_array` accepts.
 -/
 
-namespace Nix.DimLink
+namespace Nix.DimLinkTicks
 
 theorem mapE_length {α β : Type} (f : α → Except Err β) :
     ∀ (l : List α) (v : List β), mapE f l = .ok v → v.length = l.length
@@ -46,8 +46,8 @@ theorem values_length : ∀ (shape : List Nat) (index : List Int) (data v : List
 theorem isAlias_afterLinkArray (s : RangeStore) : isAlias (afterLinkArray s) = true := by
   simp [isAlias, afterLinkArray]
 
-end Nix.DimLink
-namespace Nix.DimLink
+end Nix.DimLinkTicks
+namespace Nix.DimLinkTicks
 
 theorem block_length (data : List Rat) (n size k : Nat) (hd : data.length = n * size) (hk : k < n) :
     (block data size k).length = size := by
@@ -147,4 +147,4 @@ theorem coordsOk_accepted : ∀ (shape : List Nat) (index : List Int), coordsOk 
       rw [List.count_cons, List.filter_cons]
       simp [hne, hne1, h2.1, h2.2]
 
-end Nix.DimLink
+end Nix.DimLinkTicks
